@@ -124,26 +124,29 @@ class C02(DecProp):
     id = "C02"
     thm_module = "H263V.Thm.C02"
     rule = ("P lines: one generated intra picture per line (Sorenson v0 / v1, baseline H.263, PLUSPTYPE custom format; sizes 1x1 MB, one row, one column, "
-            "non-multiples of 16, >= 3x3 MB, and widths / heights at the top of the 16-bit range; quantizer, DQUANT, INTRADC, short / 7- / 8- / 11-bit escape events, stuffing, PEI bytes, truncated pictures) written by "
+            "non-multiples of 16, >= 3x3 MB, widths / heights at the top of the 16-bit range, and the sizes video uses: QCIF, CIF, 320x240, 160x120, sub-QCIF; quantizer, DQUANT, INTRADC, short / 7- / 8- / 11-bit escape events, stuffing, PEI bytes, truncated pictures) written by "
             "the specification encoder, decoded by the real H263State vs. the Lean model; planes compared by FNV-1a hash, plane sizes and chroma stride explicitly.  "
             "Non-trivial: the picture decodes; distinct by text.")
     assumptions = ["the ideal-transform clause is delegated to C10 (Annex A accuracy of the same soft-float IDCT model)"]
 
     def cases(self, tier, rng):
         # plus declared sizes at the top of the 16-bit range (one dimension 65521..65535, the other small)
-        return core.gen_lines("intra", rng.randint(1, 10 ** 6), core.q(tier, 500, 8000)) + core.gen_lines("edgesizes", rng.randint(1, 10 ** 6), core.q(tier, 6, 0) if tier == "quick" else 0)
+        return (core.gen_lines("intra", rng.randint(1, 10 ** 6), core.q(tier, 500, 8000))
+                + core.gen_lines("edgesizes", rng.randint(1, 10 ** 6), core.q(tier, 6, 0) if tier == "quick" else 0)
+                + core.gen_lines("realsize", rng.randint(1, 10 ** 6), core.q(tier, 20, 400)))
 
 
 @register
 class C03(DecProp):
     id = "C03"
     thm_module = "H263V.Thm.C03"
-    rule = ("P lines: an intra picture (high-entropy content) followed by 1..3 predicted pictures of the same size: every macroblock type mix (not coded, INTER, INTER+Q, "
+    rule = ("P lines: an intra picture (high-entropy content) followed by 1..3 predicted pictures of the same size (small sizes of every class, and QCIF / CIF / 320x240 pairs): every macroblock type mix (not coded, INTER, INTER+Q, "
             "INTER4V, INTER4V+Q, INTRA, INTRA+Q), differentials over -16..15.5 so that vectors point outside every edge and wrap, disposable pictures, truncation after "
             "any macroblock; real decoder vs. Lean model, planes by hash.  Non-trivial: at least one predicted picture decodes; distinct by text.")
 
     def cases(self, tier, rng):
-        return core.gen_lines("inter", rng.randint(1, 10 ** 6), core.q(tier, 500, 8000))
+        return (core.gen_lines("inter", rng.randint(1, 10 ** 6), core.q(tier, 500, 8000))
+                + core.gen_lines("realsize", rng.randint(1, 10 ** 6), core.q(tier, 20, 400)))
 
     def nontrivial(self, case, model_out):
         return len(re.findall(r"(^P|\|) ok ", model_out)) >= 2
